@@ -344,7 +344,7 @@ def _check_cpp(d, work, det):
         cpph.compile_cxx(['drv.cpp'], os.path.join(work, 'drv'), work, sanitize=False)
     except cpph.BuildFailed as ex:
         return ("generated C++ headers do not compile: %s" % str(ex)[-400:], det)
-    out = subprocess.run([os.path.join(work, 'drv')], stdout=subprocess.PIPE, timeout=30).stdout.decode()
+    out = subprocess.run([os.path.join(work, 'drv')], stdout=subprocess.PIPE, timeout=600).stdout.decode()
     got = {}
     for l in out.splitlines():
         which, name, val = l.split()
